@@ -331,7 +331,7 @@ def compare_struct(fail, pre, exp_fields, got, d_name):
         want_null = e["nullable"] or conv
         got_null = g["nullable"]
         if want_null != got_null:
-            fail(f"{fp}/nullability", want_null, got_null, wclass="nullableVersions of a primitive array field" if e["array"] and e["kind"] == "primitive" else None)
+            fail(f"{fp}/nullability", want_null, got_null, wclass="nullableVersions of a primitive array field" if e["array"] and e["kind"] == "primitive" and want_null and not got_null else None)
         if e["default"] != "<absent>" and not e["array"]:
             gd = g["default"]
             ed = e["default"]
@@ -373,7 +373,8 @@ def bounded(rep, tier):
     n_eval = 0
 
     def fail(key, expected, observed, wclass=None):
-        if len(fails) < 40:
+        # capped per witness class: witnesses of a known finding must never crowd out a different failure
+        if sum(1 for f in fails if f["witness_class"] == wclass) < (12 if wclass else 60):
             fails.append({"key": key, "expected": repr(expected)[:300], "observed": repr(observed)[:300], "witness_class": wclass})
     try:
         env = dict(os.environ, PYTHONPATH=os.pathsep.join([os.path.join(root, "src"), root, os.path.dirname(os.path.dirname(os.path.abspath(__file__)))]))
